@@ -7,6 +7,7 @@
   expr := term (op term)*, term := factor+, factor := SYMBOL | SYMBOL^POWER | '(' expr ')').
 -/
 import QExPy.Lemmas.UnitParse
+import QExPy.Lemmas.ParseSpec
 
 namespace QExPy
 open U
@@ -37,15 +38,83 @@ theorem C12_precedence_table :
   refine ⟨by decide, ⟨0, 1, by decide, by decide, by decide⟩, by decide, by decide, by decide,
     by decide⟩
 
-/- Full statement (not proved in general):
-     theorem C12_tokens_equiv (ts : List UTok) : twoStack (groupAll ts) = refExpr ts
-   i.e. for every token list — nested groups, dangling / doubled / leading operators included —
-   the implicit-multiplication grouping followed by the two-stack parser builds exactly the
-   tree of the reference grammar, and fails exactly when the list is not a sentence.
-   Proved below for every list of at most 3 tokens over `tokAlphabet` and every bracket-free
-   list of at most 5 tokens (1 111 + 3 906 lists, by kernel evaluation); the unbounded
-   induction (stack invariant) is left open; the thorough tier of the check enumerates longer
-   strings against the real code. -/
+/-- **C12 (token level, all token lists).** For *every* token list — any length, nested groups,
+    dangling / doubled / leading operators included — the implicit-multiplication grouping
+    followed by the two-stack precedence parser builds exactly the tree of the reference grammar
+    (`expr := term (op term)*`, `term := factor+`, `*` and `/` left to right), and fails exactly
+    when the list is not a sentence.  Proof: induction over the token list with a stack invariant
+    (`Lemmas/ParseEquiv.lean`: the emitted tokens drive the two stacks into `[]/[]` or `[e]/[op]`,
+    matching the state of the reference automaton; ill-formed prefixes are shown to be doomed),
+    and structural recursion over the nesting for groups. -/
+theorem C12_tokens_equiv (ts : List UTok) : twoStack (groupAll ts) = refExpr ts :=
+  tokens_equiv ts
+
+/-- **C12 (the whole pipeline, all strings).** On every string the library's pipeline
+    (tokeniser with grouping → two-stack parser → tree evaluation) gives the same result —
+    the same exponent list or the same rejection — as tokenising without grouping, reading the
+    tokens with the reference grammar and evaluating. -/
+theorem C12_parse_eq_ref (cs : List Char) : parse cs = refParse cs := parse_eq_refParse cs
+
+/-- **C12 (lexical level: nothing is skipped).** When the tokeniser accepts a string, the texts
+    of the tokens it returns (a bracket as `(`…`)` around its own tokens, the bare numerator as
+    `1`) concatenate to the whole string, up to the replacement of the dot sign by `*`. -/
+theorem C12_lex_total (cs : List Char) (ts : List UTok) (h : rawTop cs = some ts) :
+    textL ts = replaceDot cs := rawTop_text cs ts h
+
+/-- **C12 (lexical round trip).** A lexically unambiguous token list (alphabetic non-empty
+    symbols, well-formed powers, no symbol directly followed by a letter, `1` only as a leading
+    `1/`, brackets non-empty and not nested) is exactly what the tokeniser returns for every
+    string that spells it (with `*` or the dot sign for multiplication). -/
+theorem C12_lex_roundtrip (ts : List UTok) (h : LexUnambiguous ts) (cs : List Char)
+    (hcs : replaceDot cs = textL ts) : rawTop cs = some ts := rawTop_roundtrip ts h cs hcs
+
+/-- non-vacuity of `LexUnambiguous`: the tokens of `1/(s⋅m^(3/2))` -/
+example : LexUnambiguous [.one, .div,
+    .par [.sym ['s'], .mul, .pw ['m'] ['(', '3', '/', '2', ')']]] := by
+  refine Or.inr ⟨_, rfl, ?_, trivial⟩
+  intro t ht
+  simp only [List.mem_singleton] at ht
+  subst ht
+  refine Or.inr ⟨_, rfl, Or.inl ⟨by simp, ?_, ?_⟩⟩
+  · intro t ht
+    simp only [List.mem_cons, List.not_mem_nil, or_false] at ht
+    rcases ht with rfl | rfl | rfl
+    · exact ⟨by simp, by decide⟩
+    · trivial
+    · refine ⟨⟨by simp, by decide⟩, Or.inr ⟨['3'], ['2'], Or.inl ⟨by simp, by decide⟩,
+        ⟨by simp, by decide⟩, rfl⟩⟩
+  · exact ⟨by simp [UTok.isSym, UTok.startsAl], by simp [UTok.isSym], trivial⟩
+
+/-- **C12 (soundness).** If the library accepts a string and returns the exponent list `u`, then
+    the string is the rendering of a syntax tree `a` of the grammar (its token texts concatenate
+    to the string), all powers of `a` have a value, and `u` is the denotation of `a`: for every
+    symbol the exponent obtained by reading with conventional precedence (`^` binds to one
+    symbol, juxtaposition tighter than `*` `/`, these left to right, brackets group). -/
+theorem C12_sound (cs : List Char) (u : Units) (h : parse cs = some u) :
+    ∃ a : Expr, textL a.toks = replaceDot cs ∧ rawTop cs = some a.toks ∧ a.ok ∧ WF u ∧
+      ∀ s, expOf u s = a.den s := parse_sound cs u h
+
+/-- **C12 (completeness).** Every string that spells a syntax tree of the grammar in a lexically
+    unambiguous way is accepted, and the exponents returned are the denotation of the tree. -/
+theorem C12_complete (a : Expr) (hok : a.ok) (hlex : LexUnambiguous a.toks) (cs : List Char)
+    (hcs : replaceDot cs = textL a.toks) :
+    ∃ u, parse cs = some u ∧ WF u ∧ ∀ s, expOf u s = a.den s :=
+  parse_complete a hok hlex cs hcs
+
+/-- **C12 (token level: soundness and completeness of the algorithm).** The two-stack parser
+    accepts a token list iff it is the rendering of a syntax tree, and then builds the tree
+    whose evaluation is the denotation. -/
+theorem C12_tokens_sound_complete (ts : List UTok) (t : Tree) :
+    twoStack (groupAll ts) = some t ↔ ∃ a : Expr, a.toks = ts ∧ a.tree = t := by
+  rw [tokens_equiv]
+  constructor
+  · exact refExpr_sound ts t
+  · rintro ⟨a, rfl, rfl⟩
+    exact refExpr_toks a
+
+/- The bounded theorem below was the state before the induction was found; it is kept because
+   it pins the model to concrete cases by kernel evaluation (it also breaks when the generated
+   precedence table changes). -/
 
 set_option maxRecDepth 1000000 in
 /-- **C12 (token level, bounded).** grouping + two-stack parser = reference grammar, acceptance
